@@ -42,6 +42,7 @@ def parseRepl (k v : String) : Option Repl := do
   | "ret" => some (.ret n)
   | "cb" => some (.cb n)
   | "cbo" => some (.cbo n)
+  | "tab" => some (.tab n)
   | _ => none
 
 def NT : Nat := 48
@@ -77,7 +78,7 @@ def parseRound (toks : List String) : Option Round := do
     let kv ← hdr.mapM (fun s => match s.splitOn "=" with
       | [a, b] => b.toNat?.map (fun n => (a, n))
       | _ => none)
-    if !(kv.all (fun p => p.1 = "y" || p.1 = "K")) then none
+    if !(kv.all (fun p => p.1 = "y" || p.1 = "K" || p.1 = "d")) then none
     let k := ((kv.find? (·.1 = "K")).map (·.2)).getD 1
     let segs := segs.filter (fun s => s.head? != some "N")
     let ths ← segs.foldlM addSeg []
@@ -97,7 +98,7 @@ def compileB (th : PThread) : List Sec :=
   go th.ops []
 
 def compileC (k : Nat) (ci : Nat) (th : PThread) : List Sec :=
-  (List.range k).flatMap (fun _ => th.targets.map (fun f => Sec.call f (ci + 1)))
+  (List.range k).flatMap (fun i => th.targets.map (fun f => Sec.call f ((ci + i) % 4 + 1)))
 
 def layout : Layout := { plh := fun f => f + 1000, pages := fun l => [l / 4], orig := fun f a => a * 7 + f }
 
@@ -137,7 +138,7 @@ def observe (sy : Sys) (s : St) : String :=
       some (name ++ "=[" ++ ",".intercalate (mine.map (fun c => showRes c.2.2)) ++ "]")
     else if name.startsWith "C" then
       let keys := mine.map (fun c => match (sy.prog t)[c.2.1]? with
-        | some (.call f _) => toString f ++ ":" ++ showRes c.2.2
+        | some (.call f a) => toString f ++ ":" ++ toString a ++ ">" ++ showRes c.2.2
         | _ => "?")
       let distinct := keys.foldl (fun acc k => if acc.contains k then acc else acc ++ [k]) []
       let items := distinct.map (fun k => k ++ "*" ++ toString (keys.count k))
